@@ -73,7 +73,7 @@ extern int mpt_notify_add(MPT_STRUCT(notify) *no, int mode, MPT_INTERFACE(input)
 	if (!(buf = no->_slot._buf)) {
 		size_t len = (sock._id + 1) * sizeof(*base);
 		if (!(buf = _mpt_buffer_alloc(len, 0))) {
-			return 0;
+			return MPT_ERROR(BadOperation);
 		}
 		buf->_used = len;
 		buf->_content_traits = traits;
